@@ -94,4 +94,16 @@ PROPS = {
         ],
         trusted=['T3 as C01', 'T4 abstract Writer (a split cursor only buffers)'],
     ),
+    'C12': dict(
+        vx_units=['server', 'vfs'], kx=[],
+        design_ref='DESIGN.md section 5, C12',
+        not_covered=[
+            'Vfs::init option algebra (ends in `for fs in superblocks.iter().flatten()`: iterator adapters) and the second-INIT refusal in the same function',
+            'PassthroughFs::init / OverlayFs::init (start with import() = syscalls; switches are AtomicBool stores on &self)',
+            'that the negotiated version IS stored (obligation to act); only that nothing but the client\'s (major, minor) may be stored',
+            'fields of the INIT reply the property does not constrain (max_background, congestion_threshold, time_gran, minor)',
+        ],
+        trusted=['T3 as C01; pagesize() == 4096 (sysconf, x86_64)', 'T4 as C01',
+                 'kernel side: process_init_reply() reads flags2 only if FUSE_INIT_EXT is set in flags (fs/fuse/inode.c)'],
+    ),
 }
